@@ -208,4 +208,8 @@ def cases(tier, seed):
     for N, p, cplx in ([(4, 2, False)] if q else [(4, 2, False), (5, 2, False), (4, 2, True)]):
         out.append(Case("criteria:%s:N=%d:p=%d" % ('cx' if cplx else 're', N, p), case_criteria, dict(N=N, p=p, cplx=cplx),
                         timeout=120 if q else 600, max_paths=32, feas_timeout=5, wall=600 if q else 2000))
+    from .common import reuse_cases, Call
+    out += reuse_cases([("arburg(p=1)", Call('arburg', 1), 3, True), ("arburg(p=2)", Call('arburg', 2), 4, False),
+                        ("arburg(p=1)", Call('arburg', 1), 3, False)] +
+                       ([] if q else [("arburg(p=2)", Call('arburg', 2), 4, True)]), q)
     return out
